@@ -144,9 +144,51 @@ def emit(table, out_path, names_path):
     if old != src:
         with open(out_path, "w") as fh:
             fh.write(src)
+    emit_names(table, N, os.path.join(os.path.dirname(out_path), "BindingNames.lean"))
     with open(names_path, "w") as fh:
         json.dump({"names": N.names, "classes": [c["name"] for c in classes]}, fh)
     return N
+
+
+def lchars(s):
+    def one(c):
+        if c == "'":
+            return "'\\''"
+        if c == "\\":
+            return "'\\\\'"
+        if 32 <= ord(c) < 127:
+            return "'%s'" % c
+        return "(Char.ofNat %d)" % ord(c)
+    return "[" + ", ".join(one(c) for c in s) + "]"
+
+
+def emit_names(table, N, out_path):
+    """the XML names of the bindings (element tags and attribute names the generated export methods write, plus the
+    document element `neuroml`), with their interned numbers: lean/NmlVerif/Gen/BindingNames.lean"""
+    used = []
+    for c in table["classes"]:
+        for a in c.get("expAttrs", []):
+            if a["fmt"] != "xsitype":
+                used.append(a["xml"])
+        for ch in c.get("expChildren", []):
+            if ch["kind"] != "any":
+                used.append(ch["tag"])
+    used.append("neuroml")
+    pairs = sorted({(N(x), x) for x in used})
+    chunks = [pairs[i:i + 60] for i in range(0, len(pairs), 60)]
+    defs = []
+    for i, ch in enumerate(chunks):
+        defs.append("def names%d : List (Nat × List Char) :=\n  [%s]\n" % (
+            i, ",\n   ".join("(%d, %s)" % (n, lchars(x)) for n, x in ch)))
+    src = ("/-! GENERATED by translators/emit_bindings.py from neuroml/nml/nml.py — do not edit.\n"
+           "    XML names (element tags, attribute names) written by the generated export methods, with the numbers they are\n"
+           "    interned under in Gen/Bindings.lean. -/\nnamespace NmlVerif.Gen.BindingNames\n\n%s\n"
+           "def xmlNames : List (Nat × List Char) := %s\n\nend NmlVerif.Gen.BindingNames\n"
+           % ("\n".join(defs), " ++ ".join("names%d" % i for i in range(len(chunks))) or "[]"))
+    old = open(out_path).read() if os.path.exists(out_path) else None
+    if old != src:
+        with open(out_path, "w") as fh:
+            fh.write(src)
 
 
 def regenerate(repo, lean_dir):
